@@ -9,6 +9,7 @@ from typing import List, Tuple, Type, Generator, Optional
 assert sys.version_info >= (3, 11)
 
 from ._lowlevel import FrameDetails
+from . import _verifhooks
 
 
 # Reference for the frame changes in 3.11:
@@ -157,6 +158,8 @@ def inspect_frame(frame: FrameType) -> FrameDetails:
     # executing on another thread.
     for _ in range(10):
         lasti_before = frame.f_lasti
+        if _verifhooks.ENABLED:
+            _verifhooks.point("attempt_start", frame, lasti_before)
         for start, end, _, depth, _ in _parse_exception_table(co):
             if start <= lasti_before <= end:
                 handler_depth = depth
@@ -215,6 +218,8 @@ def inspect_frame(frame: FrameType) -> FrameDetails:
             details.stack = []
             if frame_owner != FRAME_OWNED_BY_FRAME_OBJECT:
                 for i in range(stack_len):
+                    if _verifhooks.ENABLED:
+                        _verifhooks.point("slot", frame, lasti_before, i)
                     # Assert that the extent of stack validity still matches
                     # what we thought before. (Note it's fine if the function
                     # has continued execution and happened to wind up in the
